@@ -945,6 +945,32 @@ func (g *G) genC09(p *Plan) {
 		}
 		p.Clients = append(p.Clients, ops)
 	}
+	hugeP := 0.004
+	if g.thorough() {
+		hugeP = 0.02
+	}
+	if g.chance(hugeP) {
+		// bodies that are really sent and really large (past the first and
+		// the second step of whatever grows a buffer by the preallocation
+		// limit of 32 MiB): an object, a part, a copy of the object
+		big := func(class, method, tgt string, size int) Op {
+			op := rq(class, method, tgt, withLen(nil), "")
+			op.Raw.BodyGen = &BodySpec{Size: size, Stream: 7000 + g.rng.Intn(100)}
+			return op
+		}
+		size := g.pick2(64<<20+1, 70<<20, 96<<20+5, 100<<20)
+		ops := append([]Op{}, setup...)
+		ops = append(ops, big("huge:put", "PUT", target(b, "huge/obj", nil), size))
+		ops = append(ops, rq("huge:head", "HEAD", target(b, "huge/obj", nil), nil, ""))
+		if g.chance(0.5) {
+			ops = append(ops, rq("huge:copy", "PUT", target(b, "huge/copy", nil), [][2]string{{"X-Amz-Copy-Source", "/" + b + "/huge/obj"}}, ""))
+		}
+		if g.chance(0.5) {
+			ops = append(ops, big("huge:part", "PUT", target(b, "mp/obj", nil)+"?uploadId={up:0}&partNumber=1", g.pick2(33<<20, 64<<20+7)))
+		}
+		p.Clients = [][]Op{ops}
+		nclients = 1
+	}
 	c.Policy = g.policy(nclients)
 }
 
